@@ -123,4 +123,7 @@ def run(ctx):
     c02_frame.run_frame(ctx, want_cipher=False)
     ctx.assume("wow_srp's header API (decrypt_*_header, attempt_decrypt_server_header, encrypt_*_header) advances the cipher by exactly the bytes it is given (trusted contract)")
     ctx.assume("equality of the returned messages follows from C01 plus the obligations above; it is not executed")
+    # the header that is encrypted must be the header the reader will reconstruct: form, size field and byte placement of the
+    # encrypted writers over every body length (shared piecewise-affine writer analysis of C02)
+    c02_frame.run_frame_writers(ctx, only_encrypted=True)
     return "other", EXPLANATION, {}
